@@ -182,15 +182,20 @@ def apiDelete (mr : MetaRules L A M S T) (cur : Obj L A M S T) : Option (Obj L A
   else none
 
 /-- One request against the stored state (`none` = no such object). `Store.Update` of a missing object goes
-    through `BeforeCreate` because `AllowCreateOnUpdate()` is true for both strategies (the embedded one answers
-    for the status strategy); a rejected request leaves the state alone; an accepted update that empties the
+    through `BeforeCreate` when `AllowCreateOnUpdate()` of the endpoint's update strategy is true (`acu`); a rejected request leaves the state alone; an accepted update that empties the
     finalizers of a terminating object removes it. -/
-def apiStep [DecidableEq S'] [DecidableEq A'] (sem : Sem A S A' S') (r : Reg) (mr : MetaRules L A M S T) (zero : T) :
+def apiStep [DecidableEq S'] [DecidableEq A'] (sem : Sem A S A' S') (r : Reg) (mr : MetaRules L A M S T) (zero : T)
+    (acu : Endpoint → Bool) :
     Option (Obj L A M S T) → Api L A M S T → Option (Obj L A M S T)
   | none, .create o => (beforeCreate r mr zero o).toOption
   | some cur, .create _ => some cur                      -- AlreadyExists
   | none, .update ep o =>
-      if ep = .status ∧ !r.served then none else (beforeCreate r mr zero o).toOption
+      -- Store.Update of a missing object: NotFound unless the endpoint's update strategy says
+      -- AllowCreateOnUpdate() (`acu ep`, regenerated: `KG.Gen.C20.main/statusAllowCreateOnUpdate`; the status
+      -- strategy inherits the main strategy's answer unless it declares its own)
+      if ep = .status ∧ !r.served then none
+      else if !acu ep then none
+      else (beforeCreate r mr zero o).toOption
   | some cur, .update ep o =>
       match beforeUpdate sem r ep mr o cur with
       | .ok o' => if mr.deletedByUpdate o'.otherMeta cur.otherMeta then none else some o'
@@ -198,10 +203,11 @@ def apiStep [DecidableEq S'] [DecidableEq A'] (sem : Sem A S A' S') (r : Reg) (m
   | none, .delete => none
   | some cur, .delete => apiDelete mr cur
 
-def apiRun [DecidableEq S'] [DecidableEq A'] (sem : Sem A S A' S') (r : Reg) (mr : MetaRules L A M S T) (zero : T) :
+def apiRun [DecidableEq S'] [DecidableEq A'] (sem : Sem A S A' S') (r : Reg) (mr : MetaRules L A M S T) (zero : T)
+    (acu : Endpoint → Bool) :
     Option (Obj L A M S T) → List (Api L A M S T) → Option (Obj L A M S T)
   | st, [] => st
-  | st, a :: as => apiRun sem r mr zero (apiStep sem r mr zero st a) as
+  | st, a :: as => apiRun sem r mr zero acu (apiStep sem r mr zero acu st a) as
 
 end
 end KG.Model.Strategy
